@@ -92,15 +92,31 @@ def gen_program(rng: random.Random, profile: Dict[str, Any]) -> Dict[str, Any]:
     budget = rng.randint(1, profile.get("max_ops", 12))
     n_res = rng.randint(0, profile.get("residual", 0))
     state = {"budget": budget, "n_res": n_res}
-    h = _chain(b, h, state, profile, H, depth=0)
-    outs = [h]
+    outs: List[str] = []
+    if n_res >= 2 and budget >= 4 and rng.random() < 0.3:
+        # DAG with PARALLEL branches, each with its own residual block(s), merged by a product or returned as two outputs:
+        # the earlier residual block is then NOT an ancestor of the later one
+        x_in = h
+        sa = {"budget": budget // 2, "n_res": n_res // 2}
+        sb = {"budget": budget - budget // 2, "n_res": n_res - n_res // 2}
+        a_ = _chain(b, b.op(rng.choice(["tanh", "relu", "silu"]), [x_in], b.shape(x_in)), sa, profile, H, depth=0)
+        b_ = _chain(b, b.op(rng.choice(["tanh", "relu", "gelu"]), [x_in], b.shape(x_in)), sb, profile, H, depth=0)
+        if rng.random() < 0.6:
+            h = b.op("mul", [a_, b_], b.shape(a_))
+            outs = [h]
+        else:
+            h = b_
+            outs = [a_, b_]
+    else:
+        h = _chain(b, h, state, profile, H, depth=0)
+        outs = [h]
     if profile.get("extras") and rng.random() < 0.4:
         # second output computed from an intermediate (fan-out)
         cand = [o["out"] for o in b.ops if b.info[o["out"]]["kind"] == "float" and b.shape(o["out"]) == [B, S, D]]
         if cand:
             c = rng.choice(cand)
             outs.append(b.op("tanh", [c], [B, S, D]))
-    if profile.get("loss") and rng.random() < 0.5:
+    if profile.get("loss") and len(outs) == 1 and rng.random() < 0.5:
         kind = rng.choice(["cross_entropy", "mse_loss"])
         if kind == "cross_entropy":
             w = b.param([V, D])
